@@ -83,8 +83,9 @@ Definition resolve_trigger (w : world) (t : trigger) : trigger :=
   end.
 
 (* Commands::spawn_empty / spawn: the entity id is reserved when the call is made *)
+(* a second spawn under an already bound static id creates an entity nobody can name: no observable effect *)
 Definition reserve (id : N) (w : world) : world :=
-  let w := bind_id id w in if is_alive id w then w else w <| alive ::= fun l => l ++ [id] |>.
+  if memN id (bound w) then w else (bind_id id w) <| alive ::= fun l => l ++ [id] |>.
 
 Section WithProgram.
 Variable P : program.
@@ -361,9 +362,11 @@ Definition apply_prim (c : cmd) (w : world) : world * list cmd :=
   | CDespawn e => (despawn e w, [])
   | CDespawnRec e => (despawn e w, [])
   | CSpawnSys s =>
-      (if is_alive s w then w <| storage := aset s true (storage w) |> <| cbs := aset s (mkCb None 0 0 false) (cbs w) |> else w, [])
+      (if is_alive s w then w <| storage := aset s true (storage w) |> <| cbs := aset s (mkCb None 0 0 false true) (cbs w) |> else w, [])
   | CInsertOnce s tk =>
-      (if is_alive s w then w <| storage := aset s true (storage w) |> <| cbs := aset s (mkCb (Some tk) 0 0 false) (cbs w) |> else w, [])
+      (* try_insert on a despawned entity drops the bundle, i.e. the never-run reactor and what it captured *)
+      (if negb (is_alive s w) then emit (EvDropSys s) w else
+       if is_alive s w then w <| storage := aset s true (storage w) |> <| cbs := aset s (mkCb (Some tk) 0 0 false true) (cbs w) |> else w, [])
   | CRegister b s m =>
       (* register_reactors (react_commands.rs:28-35): prepare the handle, queue one registration per trigger, drop it *)
       let (h, w) := match m with
@@ -473,6 +476,9 @@ Fixpoint exec (fuel : nat) (i : instr) (w : world) {struct fuel} : result world 
             let (k, w) := fresh_ticket w in
             exec f (IRunner t (SuBroadcast k) ClBroadcast) (w <| tr_ev ::= trk_prepare k t d |>)
         | CGC => exec f IGC w
+        | CSpawnSys s =>
+            (* Commands::spawn = spawn_empty + insert: Bevy panics (B0003) if the reserved entity was despawned meanwhile *)
+            if is_alive s w then let (w, cs) := apply_prim c w in exec f (IApplyList cs) w else Stuck 4
         | c => let (w, cs) := apply_prim c w in exec f (IApplyList cs) w
         end
     | IGC =>
@@ -522,12 +528,12 @@ Fixpoint exec (fuel : nat) (i : instr) (w : world) {struct fuel} : result world 
                      match alookup t (storage w) with
                      | Some _ => Ok (emit (EvEnd t k true) (w <| storage := aset t true (storage w) |>))
                      | None =>
-                         let w := emit (EvDropSys t) (w <| cbs := aremove t (cbs w) |>) in
+                         let w := drop_callback t w in
                          let w := emit (EvEnd t k false) (despawn t w) in
                          exec f IGC w
                      end
                    else
-                     let w := emit (EvDropSys t) (w <| cbs := aremove t (cbs w) |>) in
+                     let w := drop_callback t w in
                      exec f IGC (emit (EvEnd t k false) w));
                 do w <- exec f IPoll w;
                 let q := buffer w in
@@ -571,16 +577,20 @@ Fixpoint exec (fuel : nat) (i : instr) (w : world) {struct fuel} : result world 
               end in
             match cb_once cb with
             | None =>
-                let w := w <| cbs := aset t (mkCb None (cb_runno cb + 1) (cb_captured cb + 1) false) (cbs w) |> in
+                let w := w <| cbs := aset t (mkCb None (cb_runno cb + 1) (cb_captured cb + 1) false true) (cbs w) |> in
                 go (cb_runno cb) w (fun w => Ok w)
             | Some tk =>
                 if cb_taken cb then Ok w
                 else
-                  let w := w <| cbs := aset t (mkCb (Some tk) (cb_runno cb + 1) (cb_captured cb + 1) true) (cbs w) |> in
+                  let w := w <| cbs := aset t (mkCb (Some tk) (cb_runno cb + 1) (cb_captured cb + 1) true true) (cbs w) |> in
                   go (cb_runno cb) w (fun w =>
                     (* despawn own entity, then world.react(|rc| rc.revoke(token)) *)
                     let w := despawn t w in
-                    exec f (IApplyList [CRevoke tk]) w)
+                    do w <- exec f (IApplyList [CRevoke tk]) w;
+                    (* the taken inner closure (and its canary) is dropped when the wrapper returns *)
+                    Ok (match alookup t (cbs w) with
+                        | Some cb' => emit (EvDropSys t) (w <| cbs := aset t (mkCb (Some tk) (cb_runno cb') (cb_captured cb') true false) (cbs w) |>)
+                        | None => w end))
             end
         | _, _ => Stuck 3
         end
@@ -622,7 +632,7 @@ Fixpoint run_tops (fuel : nat) (i : N) (l : list topop) (w : world) : result wor
 
 (* world/entity-world reactor systems exist from the start (App::add_world_reactor) *)
 Definition install_static (w : world) : world :=
-  fold_left (fun w s => (reserve s w) <| storage ::= aset s true |> <| cbs ::= aset s (mkCb None 0 0 false) |>)
+  fold_left (fun w s => (reserve s w) <| storage ::= aset s true |> <| cbs ::= aset s (mkCb None 0 0 false true) |>)
             (map snd (p_wr P) ++ map (fun x => fst (snd x)) (p_xr P)) w.
 
 Definition run (fuel : nat) : result world := run_tops fuel 0 (p_top P) (install_static init_world).
